@@ -154,8 +154,20 @@ func (g *c08Gen) funBody(idx int) *ast.Node {
 			v := g.valExpr(f, assigned, 1)
 			w := fmt.Sprintf("l%d_%d", idx, len(f.locals))
 			f.locals = append(f.locals, w)
-			stmts = append(stmts, ast.For(ast.Set(ast.Id(w), ast.Num("0")), ast.Bin("<", ast.Id(w), ast.Num("3")), ast.Post("++", ast.Id(w)),
-				ast.Block(ast.If(ast.Bin("==", ast.Id(w), ast.Num(fmt.Sprint(g.n(0, 3, "retat")))), ast.Block(ast.Return(v))))))
+			retat := ast.Num(fmt.Sprint(g.n(0, 3, "retat")))
+			switch g.n(0, 4, "retloop") {
+			case 0:
+				// ... over the characters of a string, the elements of an array, the keys of an object
+				stmts = append(stmts, ast.ForIn(w, "", ast.Str("012"), ast.Block(ast.If(ast.Bin("==", ast.Id(w), retat), ast.Block(ast.Return(v))))))
+				g.labels["return-from-for-in-over-a-string"] = true
+			case 1:
+				stmts = append(stmts, ast.ForIn(w, "", ast.Arr(ast.Num("0"), ast.Num("1"), ast.Num("2")), ast.Block(ast.If(ast.Bin("==", ast.Id(w), retat), ast.Block(ast.Return(v))))))
+			case 2:
+				stmts = append(stmts, ast.ForIn(w, "", ast.Obj(ast.KV("k0", ast.Num("0"))), ast.Block(ast.If(ast.Bin("==", ast.Id(w), ast.Str("k"+string(retat.S))), ast.Block(ast.Return(v))))))
+			default:
+				stmts = append(stmts, ast.For(ast.Set(ast.Id(w), ast.Num("0")), ast.Bin("<", ast.Id(w), ast.Num("3")), ast.Post("++", ast.Id(w)),
+					ast.Block(ast.If(ast.Bin("==", ast.Id(w), retat), ast.Block(ast.Return(v))))))
+			}
 			assigned = append(assigned, w)
 			g.labels["return-from-loop"] = true
 		case 6: // match with bindings; expression or block body; return from inside
